@@ -282,11 +282,10 @@ Fixpoint reps (first : bool) (k : nat) (op : Z) (one : list byte -> list item * 
       end
   end.
 
-Definition drawing_step (opcode : Z) (b : list byte) : list item * step_res :=
-  let l0 p := ILine [opcode] p in
-  if opcode <? 224 then
+(* the drawing opcodes below 0xe0: operation, coordinates per repetition, repetitions (decodeDrawing's switch on the
+   high nibble; props/C03.v checks it against the table regenerated from decode.go) *)
+Definition draw_group (opcode : Z) : Z * nat * Z :=
     let hi := opcode / 16 in
-    let '(op, ncoords, nreps) :=
       if hi <? 2 then (opL, 2%nat, 1 + opcode mod 32)
       else if hi <? 4 then (opl, 2%nat, 1 + opcode mod 32)
       else if hi =? 4 then (opT, 2%nat, 1 + opcode mod 16)
@@ -298,7 +297,12 @@ Definition drawing_step (opcode : Z) (b : list byte) : list item * step_res :=
       else if hi =? 10 then (opC, 6%nat, 1 + opcode mod 16)
       else if hi =? 11 then (opc, 6%nat, 1 + opcode mod 16)
       else if hi =? 12 then (opA, 0%nat, 1 + opcode mod 16)
-      else (opa, 0%nat, 1 + opcode mod 16) in
+      else (opa, 0%nat, 1 + opcode mod 16).
+
+Definition drawing_step (opcode : Z) (b : list byte) : list item * step_res :=
+  let l0 p := ILine [opcode] p in
+  if opcode <? 224 then
+    let '(op, ncoords, nreps) := draw_group opcode in
     let one := if op =? opA then arc_rep false else if op =? opa then arc_rep true
                else draw_rep op ncoords in
     match reps true (Z.to_nat nreps) op one b with
